@@ -48,9 +48,9 @@ use rustls::{Side, quic::HeaderProtectionKey};
 use serde::{Deserialize, Serialize};
 use serde_json::{Map, Value, json};
 
-mod keys;
+pub(crate) mod keys;
 
-const DATAGRAM: usize = 1200;
+pub(crate) const DATAGRAM: usize = 1200;
 /// RFC 9001 Appendix A original DCID; Initial keys stay derived from the first DCID for the
 /// whole connection whatever CIDs later Initial packets carry.
 const ORIGIN_DCID: [u8; 8] = [0x83, 0x94, 0xc8, 0xf0, 0x3e, 0x51, 0x57, 0x08];
@@ -60,7 +60,7 @@ const ORIGIN_DCID: [u8; 8] = [0x83, 0x94, 0xc8, 0xf0, 0x3e, 0x51, 0x57, 0x08];
 // ------------------------------------------------------------------------------------------
 
 #[derive(Debug, Clone, Copy, PartialEq, Eq, Hash, PartialOrd, Ord, Serialize, Deserialize)]
-enum PType {
+pub(crate) enum PType {
     Initial { token: usize },
     ZeroRtt,
     Handshake,
@@ -68,10 +68,10 @@ enum PType {
 }
 
 impl PType {
-    fn is_long(self) -> bool {
+    pub(crate) fn is_long(self) -> bool {
         !matches!(self, PType::OneRtt)
     }
-    fn name(self) -> String {
+    pub(crate) fn name(self) -> String {
         match self {
             PType::Initial { token } => format!("initial(token {token})"),
             PType::ZeroRtt => "0rtt".into(),
@@ -82,13 +82,13 @@ impl PType {
 }
 
 #[derive(Debug, Clone, Copy, PartialEq, Eq, Hash, Serialize, Deserialize)]
-enum Dir {
+pub(crate) enum Dir {
     C2S,
     S2C,
 }
 
 #[derive(Debug, Clone, Copy, PartialEq, Eq, Hash, Serialize, Deserialize)]
-enum Body {
+pub(crate) enum Body {
     /// one PING, then padded like `PadTo20`: payload (pn + body) + tag = 20 bytes
     Min,
     MinPlus1,
@@ -101,12 +101,12 @@ enum Body {
 /// the code enforces a 16-bit minimum); `forced_len = Some(n)`: the n-byte truncation is
 /// constructed directly (legal through `PacketWriter::new_*`, which takes the encoded pn).
 #[derive(Debug, Clone, Copy, PartialEq, Eq, Hash, Serialize, Deserialize)]
-struct Pn {
-    pn: u64,
-    la: Option<u64>,
-    forced_len: Option<u8>,
+pub(crate) struct Pn {
+    pub(crate) pn: u64,
+    pub(crate) la: Option<u64>,
+    pub(crate) forced_len: Option<u8>,
     /// receiver's next expected pn (largest received + 1, `RcvdJournal::decode_pn`)
-    expected: u64,
+    pub(crate) expected: u64,
 }
 
 impl Pn {
@@ -199,9 +199,9 @@ enum Tamper {
 // endpoints
 // ------------------------------------------------------------------------------------------
 
-struct Endpoint {
+pub(crate) struct Endpoint {
     side: Side,
-    cid: ConnectionId,
+    pub(crate) cid: ConnectionId,
     initial: Keys,
     handshake: Keys,
     /// client: encrypt keys, server: decrypt keys (`ArcZeroRttKeys` is role-gated the same way)
@@ -211,17 +211,17 @@ struct Endpoint {
 
 /// The keys a receive attempt uses, per packet type (normally the receiver's remote keys).
 #[derive(Clone)]
-struct KeyView {
-    cid: ConnectionId,
-    initial: DirectionalKeys,
-    handshake: DirectionalKeys,
-    zero_rtt: Option<DirectionalKeys>,
-    one_rtt_hp: std::sync::Arc<dyn HeaderProtectionKey>,
-    one_rtt_pk: ArcOneRttPacketKeys,
+pub(crate) struct KeyView {
+    pub(crate) cid: ConnectionId,
+    pub(crate) initial: DirectionalKeys,
+    pub(crate) handshake: DirectionalKeys,
+    pub(crate) zero_rtt: Option<DirectionalKeys>,
+    pub(crate) one_rtt_hp: std::sync::Arc<dyn HeaderProtectionKey>,
+    pub(crate) one_rtt_pk: ArcOneRttPacketKeys,
 }
 
 impl Endpoint {
-    fn view(&self) -> KeyView {
+    pub(crate) fn view(&self) -> KeyView {
         let (hp, pk) = self.one_rtt.remote_keys().expect("1-RTT keys installed");
         KeyView {
             cid: self.cid,
@@ -245,10 +245,10 @@ impl Endpoint {
     }
 }
 
-struct Ctx {
+pub(crate) struct Ctx {
     client: Endpoint,
     server: Endpoint,
-    negotiated: String,
+    pub(crate) negotiated: String,
 }
 
 fn cid_of(side: Side, len: usize) -> ConnectionId {
@@ -261,7 +261,7 @@ fn cid_of(side: Side, len: usize) -> ConnectionId {
 }
 
 impl Ctx {
-    fn new(suite: &str, cid_len: usize) -> Result<Ctx, String> {
+    pub(crate) fn new(suite: &str, cid_len: usize) -> Result<Ctx, String> {
         let cs = keys::suite_by_name(suite).ok_or_else(|| format!("unknown suite {suite}"))?;
         let mut hs = keys::handshake(cs, true)?;
         let (zc, zs) = match hs.zero_rtt.take() {
@@ -286,7 +286,7 @@ impl Ctx {
         };
         Ok(Ctx { client, server, negotiated: hs.negotiated })
     }
-    fn ends(&self, dir: Dir) -> (&Endpoint, &Endpoint) {
+    pub(crate) fn ends(&self, dir: Dir) -> (&Endpoint, &Endpoint) {
         match dir {
             Dir::C2S => (&self.client, &self.server),
             Dir::S2C => (&self.server, &self.client),
@@ -299,8 +299,8 @@ impl Ctx {
 // ------------------------------------------------------------------------------------------
 
 #[derive(Clone)]
-struct Sent {
-    wire: Vec<u8>,
+pub(crate) struct Sent {
+    pub(crate) wire: Vec<u8>,
     ptype: PType,
     dcid: ConnectionId,
     scid: ConnectionId,
@@ -309,7 +309,7 @@ struct Sent {
     pn: u64,
     enc: PacketNumber,
     key_phase: Option<KeyPhaseBit>,
-    body: Vec<u8>,
+    pub(crate) body: Vec<u8>,
     /// offset of the packet number (= end of header incl. length field)
     pn_off: usize,
     /// the first byte before header protection
@@ -320,10 +320,37 @@ fn pattern(i: usize) -> u8 {
     ((i * 151 + 17) % 251) as u8 | 0x02
 }
 
+/// What goes into the packet after the packet number.
+#[derive(Debug, Clone, Copy)]
+pub(crate) enum Fill<'a> {
+    /// C06's own bodies: one PING, then pattern bytes / padding
+    Std(Body),
+    /// the payload is exactly these bytes (possibly none), written through `BufMut` as the
+    /// frame writers do; used by C03c
+    Raw(&'a [u8]),
+}
+
 /// PING frame through the real `assemble_packet`, then body bytes / padding through `BufMut`
 /// exactly as the padding packages do, then `encrypt_and_protect_packet`.
-fn fill_and_seal(mut w: PacketWriter<'_>, body: Body, pn_off: usize) -> Result<(usize, Vec<u8>, u8), String> {
+fn fill_and_seal(mut w: PacketWriter<'_>, fill: Fill<'_>, pn_off: usize) -> Result<(usize, Vec<u8>, u8), String> {
     let pn_len = w.payload_len();
+    let body = match fill {
+        Fill::Std(body) => body,
+        Fill::Raw(raw) => {
+            if raw.len() > w.remaining_mut() {
+                return Err(format!("raw payload of {} bytes does not fit", raw.len()));
+            }
+            if pn_len + raw.len() + w.tag_len() < 20 {
+                return Err(format!(
+                    "raw payload of {} bytes after a {pn_len}-byte packet number leaves no header-protection sample",
+                    raw.len()
+                ));
+            }
+            w.put_slice(raw);
+            let (size, _info) = w.encrypt_and_protect_packet();
+            return Ok((size, raw.to_vec(), 0));
+        }
+    };
     w.assemble_packet(&mut PingFrame)
         .map_err(|s| format!("assemble_packet(PING) refused: {s:?}"))?;
     let min_body = {
@@ -365,6 +392,20 @@ fn send_into(
     ptype: PType,
     pn: &Pn,
     body: Body,
+    spin: bool,
+) -> Result<Sent, String> {
+    send_fill_into(buf, snd, dcid, ptype, pn, Fill::Std(body), spin)
+}
+
+/// `send_into` with the payload given either as one of C06's bodies or as exact bytes.
+#[allow(clippy::too_many_arguments)]
+pub(crate) fn send_fill_into(
+    buf: &mut [u8],
+    snd: &Endpoint,
+    dcid: ConnectionId,
+    ptype: PType,
+    pn: &Pn,
+    body: Fill<'_>,
     spin: bool,
 ) -> Result<Sent, String> {
     let scid = snd.cid;
@@ -1226,7 +1267,7 @@ fn run_case(case: &Case, mode: Mode) -> CaseResult {
     res
 }
 
-fn hex(b: &[u8]) -> String {
+pub(crate) fn hex(b: &[u8]) -> String {
     b.iter().map(|x| format!("{x:02x}")).collect()
 }
 
